@@ -480,7 +480,7 @@ def a_shuffle(lib, ins, p):
     return ins[0].shuffle(p["on"], **kw)
 
 
-Op("shuffle", 1, ["frame"], s_shuffle, a_shuffle, flags=lambda ins, p, res: (False, ins[0].index and not p.get("ignore_index")), weight=0.9, tags=["shuffle"], src="{0}.shuffle({on!r})")
+Op("shuffle", 1, ["frame"], s_shuffle, a_shuffle, flags=lambda ins, p, res: (False, ins[0].index and not p.get("ignore_index")), weight=0.9, tags=["shuffle"], src="{0}.shuffle({on!r}, **<see params>)")
 
 
 def a_repartition(lib, ins, p):
